@@ -65,6 +65,38 @@ Theorem C02_grow_only_entitled_with_reloads :
 Proof. intros ops s H. apply run_ops_grow_reload. apply wf_state_Inv. exact H. Qed.
 Print Assumptions C02_grow_only_entitled_with_reloads.
 
+(* the relation is decidable; its boolean form grantb (C02/Model.v, extracted) is what the harness evaluates on the
+   real before-state of every step for every capability that appeared *)
+Theorem C02_grant_decidable :
+  forall s E text z c, grantb s E text z c = true <-> grant s E text z c.
+Proof. exact grantb_iff. Qed.
+Print Assumptions C02_grant_decidable.
+
+Theorem C02_grow_only_entitled_oracle :
+  forall s E text a' c, In a' (s_users (step s (OCmd E text))) -> C03.Model.smem c (caps a') = true ->
+  had (s_users s) (aid a') c \/ grantb s E text (aid a') c = true.
+Proof.
+  intros s E text a' c H1 H2. destruct (step_grow s E text a' c H1 H2) as [K|K]; [left; exact K|right].
+  apply grantb_iff. exact K.
+Qed.
+Print Assumptions C02_grow_only_entitled_oracle.
+
+(* a channel op only ever grants capabilities of the channel whose "<ch>,op" was verified for him: whenever a
+   `channel capability add <ch> ...` message makes a capability c appear, c splits at its first comma into
+   (toLower ch, toLower w) — in particular `... add #a <user> #b,op` can only yield "#a,#b,op", never "#b,op" *)
+Theorem C02_chanop_scope :
+  forall s E text rest a' c,
+  tokens text = Some (chan_add_words ++ rest) ->
+  In a' (s_users (step s (OCmd E text))) -> C03.Model.smem c (caps a') = true -> ~ had (s_users s) (aid a') c ->
+  exists ch w r, rest = ch :: r /\ C03.Model.isChannel ch = true /\ check s E (ch ++ [COMMA] ++ OP) = Ok true /\
+                 C03.Model.split_comma c = Some (C03.Model.fold ch, C03.Model.fold w).
+Proof.
+  intros s E text rest a' c Ht H1 H2 Hn.
+  destruct (step_grow s E text a' c H1 H2) as [K|K]; [contradiction|].
+  eapply grant_chan_scope; eassumption.
+Qed.
+Print Assumptions C02_chanop_scope.
+
 (* an account id that did not exist before a message was created by `user register`, with the empty set *)
 Theorem C02_new_account_empty :
   forall s E text a', In a' (s_users (step s (OCmd E text))) ->
